@@ -126,7 +126,7 @@ def cases_fn(nonclone=True):
 
 
 def run(ck):
-    ck.prove(["AsModel.Theorems.C09"])
+    ck.prove(["AsModel.Theorems.C09", "AsModel.Theorems.C09Tokens"])
     ck.build_harness("inproc")
     n = 30 if ck.tier == "quick" else 250
     cases = t3.run_corpus(ck, "c09", n, per_bin=16, positions=cases_fn())
